@@ -320,3 +320,65 @@ prop(
          "distinct_nontrivial = distinct shapes with at least two extents > 1 (or rank 1 with extent > 1).",
     assumptions=["ASCII element tokens for the IO round trip"],
 )
+
+prop(
+    "C08",
+    level="fault_enumeration",
+    technique="fault-injecting Read source + reference parser: every (input, script) executed under enumerated / targeted / "
+              "random delivery schedules with injected ErrorKind::Interrupted, each result list compared with a positional "
+              "model that is a function of the bytes alone",
+    level_text="Fault enumeration: for short inputs (<=13 bytes) EVERY composition of the stream into chunks is executed, and "
+               "for compositions with <=5 chunks ErrorKind::Interrupted is injected at every subset of call positions "
+               "(incl. before the end-of-input read); longer random inputs (all 12 integer types at their extremes, "
+               "strings, chars, tuples to arity 8, vectors, LF/CRLF/lone-CR/unterminated lines, eof tests) run under "
+               "one-shot, one-byte, stale-buffer and random schedules with up to 50 % interrupts; inputs longer than the "
+               "internal buffer place tokens, '-'|digits and CR|LF across k*BUF and chunk edges (buffer size read through "
+               "the hook). Both build profiles.",
+    level_note="Trusted: the scripted source and the positional reference parser (a generated input the model rejects is "
+               "inconclusive, never a violation). Inputs are valid for their scripts; reading past the end is outside the "
+               "property. A line read directly after an end-of-input test is not generated (whether that test consumes "
+               "whitespace is not pinned down by the property).",
+    runs=[
+        dict(engine="readmon", profile="release", args=["--mode", "exhaustive"], group="exhaustive"),
+        dict(engine="readmon", profile="release", args=["--mode", "random"], group="random"),
+        dict(engine="readmon", profile="release", args=["--mode", "boundary"], group="boundary"),
+        dict(engine="readmon", profile="dev", args=["--mode", "exhaustive", "--cases", "300"], group="exhaustive",
+             label="readmon/dev/exhaustive (debug assertions on)"),
+        dict(engine="readmon", profile="dev", args=["--mode", "random", "--cases", "60000"], group="random",
+             label="readmon/dev/random (debug assertions on)"),
+        dict(engine="readmon", profile="dev", args=["--mode", "boundary", "--cases", "300"], group="boundary",
+             label="readmon/dev/boundary (debug assertions on)"),
+    ],
+    floor=dict(quick=300_000, thorough=5_000_000),
+    counter_floors=dict(quick=dict(deliveries=10_000_000, deliveries_with_interrupts=5_000_000, crlf_splits=100_000,
+                                   minus_digit_splits=100_000, buffer_boundary_straddles=1_000, split_points=40)),
+    rule="one evaluation = one (input bytes, read script) pair executed under all its delivery schedules (counter "
+         "'deliveries'); distinct_nontrivial = distinct (input, script) pairs; coverage sets: split_points = (token kind, "
+         "offset inside the token at which a chunk boundary fell), interrupted_call_positions, crlf_splits, "
+         "minus_digit_splits, buffer_boundary_straddles.",
+    assumptions=["ASCII inputs built from valid tokens and whitespace / line separators", "scripts never read past the end of input"],
+)
+
+prop(
+    "C12",
+    level="exploration",
+    technique="reference-model runtime monitor: Bitset<N> for N in {1,2,3,4,10,17} in lock step with a Vec<bool>, complete "
+              "observation (test of every index, count, iter_bits, ==, Display/Debug) after every operation; structured "
+              "pairwise operator sub-run",
+    level_text="Exploration: random histories of set/remove/flip/clear/from_u64, the three binary operators, their assigning "
+               "forms, complement, clone over a pool of bitsets for six capacities incl. a single word, indices biased to "
+               "word boundaries (63/64, last bit); after every operation the touched bitset is observed completely and "
+               "compared with the model set; all ordered pairs of ~40 structured sets per capacity under every operator.",
+    level_note="Trusted: the Vec<bool> model. Capacities outside the instantiated list are not executed (const generic). "
+               "Out-of-range indices are outside the property.",
+    runs=[
+        dict(engine="bitmon", profile="release", args=[], group="all"),
+        dict(engine="bitmon", profile="dev", args=["--mode", "pairwise"], group="all", label="bitmon/dev/pairwise (overflow + bounds checks on)"),
+    ],
+    floor=dict(quick=50_000, thorough=1_000_000),
+    counter_floors=dict(quick=dict(boundary_index_ops=100_000, op_kinds=16)),
+    rule="one evaluation = one random history (0..60 ops on a pool of three bitsets, complete observation after every op) or "
+         "one ordered pair of structured sets under all operators; distinct_nontrivial = histories with a mutating op and a "
+         "binary operator / pairs of two different sets that are neither empty nor full.",
+    assumptions=["indices < 64*N"],
+)
